@@ -3,6 +3,7 @@ import BytesVerif.Judge.C15
 import BytesVerif.Judge.Buf
 import BytesVerif.Judge.Mut
 import BytesVerif.Judge.Seq
+import BytesVerif.Judge.Recycle
 
 def main (args : List String) : IO UInt32 := do
   match args with
@@ -13,6 +14,7 @@ def main (args : List String) : IO UInt32 := do
   | ["buf"] => BytesVerif.Judge.BufJ.run false
   | ["buf", "debug"] => BytesVerif.Judge.BufJ.run false
   | ["buf", "release"] => BytesVerif.Judge.BufJ.run true
+  | ["recycle"] => BytesVerif.Judge.RecJ.run
   | ["seq"] => BytesVerif.Judge.SeqJ.run
   | ["mut"] => BytesVerif.Judge.MutJ.run
   | ["cert-c11"] => BytesVerif.Judge.MutJ.certSearch
